@@ -93,3 +93,45 @@ package assertiontree
 //@                    (= trueCheck (dyn last res 0)) (= falseCheck (dyn last res 1)))
 //@               (and (forall ((a Int) (b Int)) (= (holds bop a b) (not (ite swapped (holds op b a) (holds op a b)))))
 //@                    (= trueCheck (dyn last res 1)) (= falseCheck (dyn last res 0)))))))
+
+//@ -- C08: the return-classification table.  For a function whose last result is an error: the 'always safe'
+//@ -- tracking consumers are created for every return; if the error operand is known nil the non-error results get
+//@ -- ordinary return consumers (or, when the error is the only result, the error gets its consumer); if it is known
+//@ -- non-nil only the error gets a consumer; otherwise every result gets the placeholder consumers that the later
+//@ -- filtering resolves.  Exactly one of the three rows applies and nothing from another row is created.
+
+//@ -- FuncObj fills a one-entry cache on the root node: the only memory it writes is the node itself
+//@ func (*RootAssertionNode).FuncObj
+//@ prop C08
+//@ modifies (obj r)
+
+//@ func handleErrorReturns
+//@ prop C08
+//@ modifies *
+//@ ensures not-an-error-returning-function (=> (not result) (and (= (calls "createReturnConsumersForAlwaysSafe") 0) (= (calls "createConsumerForErrorReturn") 0) (= (calls "createGeneralReturnConsumers") 0) (= (calls "createSpecialConsumersForAllReturns") 0)))
+//@ ensures always-safe-tracking-for-every-return (=> result (and (= (calls "createReturnConsumersForAlwaysSafe") 1) (= (len (callarg "createReturnConsumersForAlwaysSafe" 0 1)) (- (len results) 1)) (= (callarg "createReturnConsumersForAlwaysSafe" 0 2) retStmt) (= (callarg "createReturnConsumersForAlwaysSafe" 0 3) isNamedReturn)))
+//@ ensures error-operand-is-the-last-result (=> result (= (callarg "isErrorReturnNil" 0 1) (old (idx results (- (len results) 1)))))
+//@ ensures nil-error-with-guarded-results (=> (and result (callres "isErrorReturnNil") (> (len results) 1))
+//@    (and (= (calls "createGeneralReturnConsumers") 1) (= (len (callarg "createGeneralReturnConsumers" 0 1)) (- (len results) 1)) (= (callarg "createGeneralReturnConsumers" 0 2) retStmt)
+//@         (= (calls "createConsumerForErrorReturn") 0) (= (calls "createSpecialConsumersForAllReturns") 0)))
+//@ ensures nil-error-alone (=> (and result (callres "isErrorReturnNil") (= (len results) 1))
+//@    (and (= (calls "createConsumerForErrorReturn") 1) (= (callarg "createConsumerForErrorReturn" 0 1) (old (idx results 0))) (= (callarg "createConsumerForErrorReturn" 0 2) 0)
+//@         (= (calls "createGeneralReturnConsumers") 0) (= (calls "createSpecialConsumersForAllReturns") 0)))
+//@ ensures nonnil-error-only-the-error-is-consumed (=> (and result (not (callres "isErrorReturnNil")) (callres "isErrorReturnNonnil"))
+//@    (and (= (calls "createConsumerForErrorReturn") 1) (= (callarg "createConsumerForErrorReturn" 0 1) (old (idx results (- (len results) 1)))) (= (callarg "createConsumerForErrorReturn" 0 2) (- (len results) 1))
+//@         (= (callarg "createConsumerForErrorReturn" 0 3) retStmt)
+//@         (= (calls "createGeneralReturnConsumers") 0) (= (calls "createSpecialConsumersForAllReturns") 0)))
+//@ ensures unknown-error-placeholders-for-all (=> (and result (not (callres "isErrorReturnNil")) (not (callres "isErrorReturnNonnil")))
+//@    (and (= (calls "createSpecialConsumersForAllReturns") 1) (= (len (callarg "createSpecialConsumersForAllReturns" 0 1)) (- (len results) 1))
+//@         (= (callarg "createSpecialConsumersForAllReturns" 0 2) (old (idx results (- (len results) 1)))) (= (callarg "createSpecialConsumersForAllReturns" 0 3) (- (len results) 1)) (= (callarg "createSpecialConsumersForAllReturns" 0 4) retStmt)
+//@         (= (calls "createGeneralReturnConsumers") 0) (= (calls "createConsumerForErrorReturn") 0)))
+
+//@ -- the (value, ok) convention: only an explicit constant ok operand is classified; `true` tracks the other results,
+//@ -- `false` tracks nothing (beyond the always-safe bookkeeping)
+//@ func handleBooleanReturns
+//@ prop C08
+//@ modifies *
+//@ ensures not-classified-creates-nothing (=> (not result) (and (= (calls "createReturnConsumersForAlwaysSafe") 0) (= (calls "createGeneralReturnConsumers") 0)))
+//@ ensures classified-always-tracks-always-safe (=> result (and (= (calls "createReturnConsumersForAlwaysSafe") 1) (= (len (callarg "createReturnConsumersForAlwaysSafe" 0 1)) (- (len results) 1))))
+//@ ensures ok-true-tracks-the-guarded-results (=> (and result (local val)) (and (= (calls "createGeneralReturnConsumers") 1) (= (len (callarg "createGeneralReturnConsumers" 0 1)) (- (len results) 1)) (= (callarg "createGeneralReturnConsumers" 0 2) retStmt)))
+//@ ensures ok-false-tracks-nothing (=> (and result (not (local val))) (= (calls "createGeneralReturnConsumers") 0))
